@@ -114,6 +114,24 @@ def run_case(ctx, case):
                 r = mh.haar(v, preserve_energy=False, inline=True)
                 if not np.array_equal(np.asarray(r, np.float64), want) or not np.array_equal(np.asarray(v, np.float64), want):
                     return Result(False, True, {"why": "haar(inline=True) on a %s view != model (or the view was not transformed)" % case["layout"]})
+            else:
+                # inline=True asks for the transform to be written into the argument: a read-only array cannot take it, the
+                # call must fail and leave the array as it was (haar, ihaar, daubechies, idaubechies)
+                for name, call in (("haar", lambda x: mh.haar(x, preserve_energy=False, inline=True)),
+                                   ("ihaar", lambda x: mh.ihaar(x, preserve_energy=False, inline=True)),
+                                   ("daubechies", lambda x: mh.daubechies(x, "D4", inline=True)),
+                                   ("idaubechies", lambda x: mh.idaubechies(x, "D4", inline=True))):
+                    v = apply_layout(a0, "readonly", fill=1)
+                    before = v.copy()
+                    try:
+                        call(v)
+                        raised = False
+                    except (ValueError, TypeError, RuntimeError):
+                        raised = True
+                    if not np.array_equal(v, before):
+                        return Result(False, True, {"why": "%s(inline=True) wrote into a read-only array" % name, "raised": raised})
+                    if not raised:
+                        return Result(False, True, {"why": "%s(inline=True) accepted a read-only array" % name})
             # array-likes that expose their storage without being ndarrays (memoryview, ctypes, __array__): inline=False must
             # work on a copy -- the caller's storage is untouched and the result is the same
             import ctypes
